@@ -10,7 +10,7 @@ flock /tmp/liskcheck-wt.lock git -C /repo worktree add -q --detach "$wt" HEAD ||
 if ! git -C "$wt" apply "$patch"; then echo "PATCH DOES NOT APPLY"; git -C /repo worktree remove --force "$wt"; exit 2; fi
 (cd "$wt" && go build ./... 2>&1 | head -5)
 ev=$(mktemp -d /tmp/liskcheck-try-ev.XXXXXX); mkdir -p "$ev/evidence"; cp known_findings.json "$ev/"
-bin/liskcheck -repo "$wt" -verif "$ev" -prop "$prop" > "$ev/out.log" 2>&1
+"${LISKCHECK_BIN:-bin/liskcheck}" -repo "$wt" -verif "$ev" -prop "$prop" > "$ev/out.log" 2>&1
 grep -E -A"$n" "^  FAIL|undecided|BROKEN" "$ev/out.log" | cut -c1-700
 grep -E "^VIOLATION|^OK" "$ev/out.log" | tr '\n' ' '; echo
 flock /tmp/liskcheck-wt.lock git -C /repo worktree remove --force "$wt"; rm -rf "$ev"
